@@ -32,6 +32,9 @@ func (s scn) name() string {
 var states = []string{
 	"idle", "fresh", "data-arriving", "eof-seen", "eof-pending", "eio-consumed", "eio-unconsumed",
 	"eio-pending", "after-timeout", "second-seq", "second-conc", "exit-onclose",
+	// an on-close function that first fetches the prompt (as the stock platforms' acquire-priv does) and then
+	// says "exit": on a dead connection it fails, and Close must still close everything
+	"onclose-idle", "onclose-eof-seen", "onclose-eio-consumed", "onclose-eio-unconsumed",
 }
 
 func grace(rd time.Duration) time.Duration { return rd * (rd / 1000) }
@@ -45,6 +48,8 @@ func scenario(s scn) sched.Scenario {
 		cfg.WantLeaks = true
 		cfg.Grace = 4*s.rd + grace(s.rd)
 		cfg.Horizon = 100*s.rd + 3*grace(s.rd) + 50*s.rd
+		onclose := strings.HasPrefix(s.state, "onclose-")
+		state := strings.TrimPrefix(s.state, "onclose-")
 		w.Explore(cfg, s.b, func(e *sched.Env) {
 			hangup := false
 			var tr *dev.FakeTransport
@@ -97,6 +102,14 @@ func scenario(s scn) sched.Scenario {
 							return d.Channel.WriteAndReturn([]byte("exit"), false)
 						}))
 					}
+					if onclose {
+						o = append(o, options.WithNetworkOnClose(func(d *network.Driver) error {
+							if _, err := d.GetPrompt(); err != nil {
+								return err
+							}
+							return d.Channel.WriteAndReturn([]byte("exit"), false)
+						}))
+					}
 					n, err = network.NewDriver("dev", o...)
 					if err == nil {
 						g = n.Driver
@@ -105,6 +118,14 @@ func scenario(s scn) sched.Scenario {
 					o := opts
 					if s.state == "exit-onclose" {
 						o = append(o, options.WithOnClose(func(d *generic.Driver) error {
+							return d.Channel.WriteAndReturn([]byte("exit"), false)
+						}))
+					}
+					if onclose {
+						o = append(o, options.WithOnClose(func(d *generic.Driver) error {
+							if _, err := d.GetPrompt(); err != nil {
+								return err
+							}
 							return d.Channel.WriteAndReturn([]byte("exit"), false)
 						}))
 					}
@@ -128,7 +149,7 @@ func scenario(s scn) sched.Scenario {
 						return
 					}
 				}
-				switch s.state {
+				switch state {
 				case "data-arriving":
 					e.OpenWindow()
 					tr.Inject([]byte("\nlog message\nrouter#"))
@@ -176,7 +197,7 @@ func scenario(s scn) sched.Scenario {
 					doClose(1)
 				})
 			}
-			if s.state == "exit-onclose" {
+			if s.state == "exit-onclose" || onclose {
 				// the device hangs up when it gets "exit": modelled as end-of-stream at the current point
 				e.AddSource(hangupSource{func() bool {
 					if hangup && tr.Loss == dev.LossNone {
@@ -212,6 +233,9 @@ func scenario(s scn) sched.Scenario {
 					limit := grace(s.rd) + 3*s.rd + 3*cfg.Tick
 					if s.state == "exit-onclose" {
 						limit += 3 * s.rd
+					}
+					if onclose {
+						limit += 8 * s.rd // the on-close function's own prompt fetch
 					}
 					if c.t1-c.t0 > limit {
 						e.Violate("c07:close-slow", "close %d took %v > %v", i, c.t1-c.t0, limit)
@@ -383,7 +407,7 @@ func scenarios(tier string) []sched.Scenario {
 		for _, st := range states {
 			for _, mode := range []dev.CloseMode{dev.CloseEOF, dev.CloseEIO, dev.CloseStaysBlocked, dev.CloseEOFWithErr} {
 				for _, rd := range rds {
-					if drv == "network" && st != "exit-onclose" && st != "idle" && st != "second-seq" && tier != "thorough" {
+					if drv == "network" && st != "exit-onclose" && st != "idle" && st != "second-seq" && !strings.HasPrefix(st, "onclose-") && tier != "thorough" {
 						continue
 					}
 					b := sched.Bounds{Pre: pre, Env: pre - 1, Total: pre}
